@@ -1,8 +1,6 @@
 import RTV.Drv.Proto
 import RTV.Model.CultureCfg
 import RTV.Gen.CultureCfg
-import RTV.Gen.CharTables
-import RTV.Gen.ReTables
 /-! Driver operations of the translated culture configuration methods.
 
   cc.eval <index> <method name> <nStr> <str>… <int>…   -> value     (`err:KeyError` when index / name do not agree)
@@ -14,10 +12,7 @@ namespace RTV.Drv
 open RTV.Py RTV.CultureCfg
 
 /-- the tables of the running interpreter / regex engine, regenerated on every run -/
-def ccTabs : Tabs where
-  isSpace c := inRangesArr RTV.Gen.spaceRanges c
-  lowerC c := RTV.Preprocess.lowerFull RTV.Gen.lowerPairs RTV.Gen.lowerExpanding c
-  re := RTV.Gen.reTables
+def ccTabs : Tabs := RTV.Gen.CC.tabs
 
 def ccShowAtom : Atom → String
   | .int i => s!"i:{i}"
